@@ -407,7 +407,7 @@ def check_plumbing(ctx, R="C17.plumbing"):
 
 
 def check(ctx):
-    check_frames(ctx)
-    check_occluders(ctx)
-    check_wrappers(ctx)
-    check_plumbing(ctx)
+    ctx.run(check_frames)
+    ctx.run(check_occluders)
+    ctx.run(check_wrappers)
+    ctx.run(check_plumbing)
